@@ -2,11 +2,12 @@
 import encoder_corr
 
 META = {
-    "lean_modules": ["QVerif.Props.C01"],
+    "lean_modules": ["QVerif.Props.C01", "QVerif.Props.C01Cvar"],
     "drivers": ["Encoder"],
     "theorems": [
         "QVerif.Encoder.hamiltonian_operator_eigenvalue",
         "QVerif.Encoder.eval_normalize",
+        "QVerif.Encoder.cvar_of_feasible_samples",
         'QVerif.Encoder.energy_decoded', 'QVerif.Encoder.energy_feasible', 'QVerif.Encoder.energy_decoded_infeasible', 'QVerif.Encoder.energy_lower', 'QVerif.Encoder.energy_undecodable', 'QVerif.Encoder.feasible_below_infeasible', 'QVerif.Encoder.feasible_below_infeasible_boundary', 'QVerif.Encoder.makespanTerm_pos', 'QVerif.Encoder.abel_bound', 'QVerif.Encoder.viability_eq', 'QVerif.Encoder.incidences_bound', 'QVerif.DoubleCount.incidences_eq'],
     "level": "proof",
     "level_text": 'Proof (exact rationals, model Model/Encoder.lean): for every instance, limit >= longest job, penalties in the documented regime and every basis state: if every start-time variable decodes, the energy is exactly (#out-of-order consecutive pairs) x P_prec + (#overlapping pairs on a machine) x P_ovl + an optimisation part in [0, W] (energy_decoded, energy_feasible, energy_decoded_infeasible, violations counted on the decoded start times); on EVERY state the energy is >= 2 P_enc x (number of reverse domain walls) (energy_lower: pair penalties never outweigh the viability terms weighted by max constraint count + 1 - double counting + Abel summation), hence >= P_enc when some variable is undecodable (energy_undecodable); feasible states are strictly below all infeasible ones when W < P_prec, P_ovl (feasible_below_infeasible) and also on the boundary W = P_c of the regime — the defaults — when the makespan share is positive and some job has an operation (feasible_below_infeasible_boundary: the optimisation part of every decoded state is then strictly positive, makespanTerm_pos, and an undecodable state costs >= 2 P_enc).',
